@@ -123,10 +123,15 @@ QSLICES = {
 }
 
 # property-specific extra replay slices (quick tier)
+# (the one-key slices of the concurrent cache reach depth 7: insert, clock, read, clock, invalidate, sync, read)
+_STTI = RS("tti2", nkeys=1, vals=(1,), maxt=3, depth=7)
+_STTL = RS("ttl2", nkeys=1, vals=(1,), maxt=3, depth=7)
 RQ_EXTRA = {
-    "C05": [RU("ttl2", nkeys=2, vals=(1,), depth=6)],
-    "C06": [RU("tti2", nkeys=2, vals=(1,), depth=6)],
-    "C07": [RU("ttl2", nkeys=2, vals=(1,), depth=6)],
+    "C01": [_STTI],
+    "C03": [_STTI],
+    "C05": [RU("ttl2", nkeys=2, vals=(1,), depth=6), _STTL],
+    "C06": [RU("tti2", nkeys=2, vals=(1,), depth=6), _STTI],
+    "C07": [RU("ttl2", nkeys=2, vals=(1,), depth=6), _STTI, _STTL],
 }
 
 # the thorough exhaustive slices that bear on each property (C03 and C10, the broadest, take all)
@@ -468,8 +473,8 @@ def extend_drifting(ctx, name, beh, lines, c):
     with open(beh) as f:
         all_b = f.readlines()
     picks = sorted(set(lines))
-    if len(picks) > 60:
-        picks = sorted(rnd.sample(picks, 60))
+    if len(picks) > 80:
+        picks = sorted(rnd.sample(picks, 80))
     ext = os.path.join(ctx.wd, name + ".ext.beh.ndjson")
     nk = c["nkeys"]
     n = 0
@@ -481,19 +486,22 @@ def extend_drifting(ctx, name, beh, lines, c):
             vid = 50
             for j in range(20):
                 ops = list(b["ops"])
-                for _ in range(6):
+                for _ in range(8):
                     r = rnd.random()
                     k = rnd.randint(1, nk)
-                    if r < 0.25:
+                    if r < 0.22:
                         vid += 1
                         ops.append({"op": "Insert", "k": k, "v": vid, "w": rnd.choice(sorted(c["weights"]))})
-                    elif r < 0.5:
+                    elif r < 0.44:
                         ops.append({"op": "Get", "k": k})
-                    elif r < 0.62:
+                    elif r < 0.54:
                         ops.append({"op": "Contains", "k": k})
-                    elif r < 0.7:
+                    elif r < 0.62:
                         ops.append({"op": "Invalidate", "k": k})
-                    elif r < 0.8 and has_exp:
+                    elif r < 0.68:
+                        ops.append({"op": "InvalidateAll"})
+                    elif r < 0.8 and (has_exp or kind == "sync"):
+                        # (invalidate_all of the concurrent cache works by clock readings)
                         ops.append({"op": "Advance", "d": 1})
                     elif r < 0.9:
                         ops.append({"op": "Sync"} if kind == "sync" else {"op": "Iter"})
